@@ -490,6 +490,30 @@ def krome_numeric(v: List[int]) -> bool:
     return _numeric_family("krome", v)
 
 
+KR_SURF = ["", "#CO", "#H", "CO", "#H2O", "H", "#CH3OH", "e-"]
+
+
+def krome_surface_species(v: List[int]) -> bool:
+    """
+    pre: len(v) == 3 and all(0 <= x < 8 for x in v)
+    post: _ == True
+    """
+    # what Network.write(format="krome") emits for a gas-grain network: '#' is the surface prefix inside a data line
+    # (and the comment marker only at the beginning of a line)
+    a, b, c = prelude.concrete(v)
+    with prelude.NoTracing():
+        r = _base("krome")
+        r["reactants"] = [x for x in (KR_SURF[a] or "H", KR_SURF[(a + b) % 8]) if x]
+        r["products"] = [x for x in (KR_SURF[b] or "#CO", KR_SURF[c], KR_SURF[(b + c) % 8]) if x]
+        r["tmin"], r["tmax"] = ("10", "30") if c % 2 else ("NONE", "NONE")
+        reac, line = _decode("krome", r)
+        if c % 2 == 0:
+            r["tmin"], r["tmax"] = "-1", "-1"
+        if reac is None or not _check("krome", r, 999, reac):
+            return False
+        return reac.rate_string is not None and reac.rate_string.strip() == r["rate"]
+
+
 KR_LO = ["", ">", ".GE.", ".GT."]
 KR_HI = ["", "<", ".LE.", ".LT."]
 KR_NUM = [("10", 10.0), ("1d2", 100.0), (".5d1", 5.0), ("2.73", 2.73), ("3.e4", 30000.0), (".25e2", 25.0), ("5.5e3", 5500.0), (".75", 0.75)]
